@@ -154,6 +154,15 @@ pub fn matrix_inverse<C: CurveArithmetic>(
     transposed
 }
 
+/// Verification hook (compiled only with `--cfg sl_crypto_verif`).
+#[cfg(sl_crypto_verif)]
+pub fn verif_determinant<C: CurveArithmetic>(
+    matrix: Vec<Vec<C::Scalar>>,
+    rows: usize,
+) -> Result<C::Scalar, &'static str> {
+    mod_bareiss_determinant::<C>(matrix, rows)
+}
+
 #[cfg(test)]
 mod tests {
     use super::*;
